@@ -31,6 +31,8 @@ inductive Ty where
   | td (c : Nat)
   /-- `Union[K₁, …, Kₙ]` / `Union[K₁, …, Kₙ, None]` of attrs classes / dataclasses of the class table -/
   | union (cs : List Nat) (hasNone : Bool)
+  /-- a `typing.NamedTuple` class of the class table (kind `namedtuple`): a heterogeneous tuple with named positions -/
+  | nt (c : Nat)
   deriving Repr, Inhabited
 
 inductive Dflt where
@@ -54,7 +56,7 @@ structure Field where
   deriving Repr, Inhabited
 
 inductive ClsKind where
-  | attrs | dataclass | typeddict
+  | attrs | dataclass | typeddict | namedtuple
   deriving DecidableEq, Repr, Inhabited
 
 structure Cls where
@@ -71,6 +73,28 @@ structure World where
 def World.cls? (w : World) (c : Nat) : Option Cls := w.classes[c]?
 def World.fields (w : World) (c : Nat) : List Field := match w.classes[c]? with | some k => k.fields | none => []
 def World.frozen (w : World) (c : Nat) : Bool := match w.classes[c]? with | some k => k.frozen | none => false
+/-- is class `c` a `typing.NamedTuple` class (`cattrs.cols.is_namedtuple`)? -/
+def World.isNT (w : World) (c : Nat) : Bool :=
+  match w.classes[c]? with | some k => k.kind == .namedtuple | none => false
+/-- declared type of a field; an unannotated field behaves as `Any` -/
+def Field.tyA (f : Field) : Ty := match f.ty with | some t => t | Option.none => .any
+/-- `tuple(cl.__annotations__.values())`: the field types of a NamedTuple class, in declaration order -/
+def World.ntTys (w : World) (c : Nat) : List Ty := (w.fields c).map Field.tyA
+def World.ntNames (w : World) (c : Nat) : List String := (w.fields c).map (·.name)
+/-- the items of a NamedTuple instance (`tuple(x)`) -/
+def vals (fs : List (String × Obj)) : List Obj := fs.map (·.2)
+/-- `cl(*ys)` for a NamedTuple class -/
+def ntMk (w : World) (c : Nat) (ys : List Obj) : Obj := .inst c ((w.ntNames c).zip ys)
+
+theorem sizeOf_vals_lt (fs : List (String × Obj)) : sizeOf (vals fs) < 1 + sizeOf fs := by
+  induction fs with
+  | nil => simp [vals]
+  | cons p rest ih =>
+    cases p with
+    | mk k v =>
+      simp only [vals, List.map_cons, List.cons.sizeOf_spec, Prod.mk.sizeOf_spec] at *
+      omega
+
 def World.members (w : World) (e : Nat) : List Obj := match w.enums[e]? with | some f => f | none => []
 
 structure Cfg where
